@@ -187,6 +187,7 @@ fn tracker_visit_expr<'a>(expr: &ast::Expr<'a>, state: &mut AssignmentTracker<'a
             tracker_visit_expr(&expr.subscript_expr, state);
         }
         ast::Expr::Slice(slice) => {
+            tracker_visit_expr(&slice.expr, state);
             tracker_visit_expr_opt(&slice.start, state);
             tracker_visit_expr_opt(&slice.stop, state);
             tracker_visit_expr_opt(&slice.step, state);
@@ -211,6 +212,8 @@ fn track_assign<'a>(expr: &ast::Expr<'a>, state: &mut AssignmentTracker<'a>) {
         ast::Expr::Var(var) => state.assign(var.id),
         ast::Expr::List(list) => list.items.iter().for_each(|x| track_assign(x, state)),
         ast::Expr::Tuple(tuple) => tuple.items.iter().for_each(|x| track_assign(x, state)),
+        // `{% set ns.attr = value %}` reads `ns`
+        ast::Expr::GetAttr(attr) => tracker_visit_expr(&attr.expr, state),
         _ => {}
     }
 }
@@ -258,6 +261,7 @@ fn track_walk<'a>(node: &ast::Stmt<'a>, state: &mut AssignmentTracker<'a>) {
             track_assign(&stmt.target, state);
         }
         ast::Stmt::AutoEscape(stmt) => {
+            tracker_visit_expr(&stmt.enabled, state);
             state.push();
             stmt.body.iter().for_each(|x| track_walk(x, state));
             state.pop();
@@ -266,11 +270,14 @@ fn track_walk<'a>(node: &ast::Stmt<'a>, state: &mut AssignmentTracker<'a>) {
             state.push();
             stmt.body.iter().for_each(|x| track_walk(x, state));
             state.pop();
+            // the arguments of the filter are evaluated after the body
+            tracker_visit_expr(&stmt.filter, state);
         }
         ast::Stmt::SetBlock(stmt) => {
             state.push();
             stmt.body.iter().for_each(|x| track_walk(x, state));
             state.pop();
+            tracker_visit_expr_opt(&stmt.filter, state);
             track_assign(&stmt.target, state);
         }
         #[cfg(feature = "multi_template")]
